@@ -14,6 +14,7 @@ import (
 	"govc/smt"
 
 	"golang.org/x/tools/go/ssa"
+	"golang.org/x/tools/go/ssa/ssautil"
 )
 
 // FindContractFiles lists verif_contracts*.go files under repo.
@@ -133,6 +134,9 @@ func Setup(repo string, props []string, extraPkgs []string) (*World, error) {
 			if pkg.Func(c.FuncName) == nil {
 				return nil, fmt.Errorf("lemma function %s not found", c.FuncName)
 			}
+			continue
+		}
+		if c.Closure > 0 {
 			continue
 		}
 		hf := pkg.Func(c.HarnessName)
@@ -261,6 +265,11 @@ func VerifyContract(w *World, c *Contract) (res *FuncResult) {
 		}
 	}()
 	pkg := w.Pkgs[c.Pkg]
+	if c.Closure > 0 {
+		e.verifyClosure(pkg, c)
+		res.Obls = e.Obls
+		return res
+	}
 	if c.Lemma {
 		// a lemma: ghost Go code executing the real functions, with verif_assert as obligations
 		lf := pkg.Func(c.FuncName)
@@ -420,7 +429,9 @@ func Discharge(obls []*Obligation, tmo time.Duration, workers int, dir string) [
 			retry = append(retry, i)
 		}
 	}
-	if len(retry) > 0 && len(retry) <= 24 {
+	// (many undecided obligations at once mean the code or a contract is broken, not that the solvers need
+	// more time: the long second chance is reserved for a handful)
+	if len(retry) > 0 && len(retry) <= 10 {
 		// case split on the last few merged branch atoms: the merged state of a function with a
 		// switch is a big ite-DAG, each arm alone is straight-line. All cases unsat => unsat.
 		splitScripts := map[int][]string{}
@@ -547,4 +558,106 @@ func Discharge(obls []*Obligation, tmo time.Duration, workers int, dir string) [
 		wg2.Wait()
 	}
 	return out
+}
+
+// verifyClosure: a contract on a function literal. The literal is executed on its own, from an
+// ARBITRARY state of its captured variables (only the contract's requires are assumed) - which covers
+// its use as a deferred function running after a panic at any point of the enclosing function - with
+// recover() returning an arbitrary value. Clauses are Go expressions over the captured variables
+// listed in the vars clause (by name).
+func (e *Exec) verifyClosure(pkg *ssa.Package, c *Contract) {
+	var parent *ssa.Function
+	for fn := range ssautil.AllFunctions(e.W.Prog) {
+		if fn.Pkg != pkg || fn.Name() != c.FuncName || fn.Parent() != nil {
+			continue
+		}
+		if (c.Recv == nil) != (fn.Signature.Recv() == nil) {
+			continue
+		}
+		if c.Recv != nil && !strings.HasSuffix(typeName(fn.Signature.Recv().Type()), strings.TrimPrefix(c.Recv.Type, "*")) {
+			continue
+		}
+		parent = fn
+	}
+	if parent == nil {
+		unsupported("closure contract: function %s not found", c.FuncName)
+	}
+	// source order of the literals
+	anons := append([]*ssa.Function{}, parent.AnonFuncs...)
+	sort.Slice(anons, func(i, j int) bool { return anons[i].Pos() < anons[j].Pos() })
+	if c.Closure > len(anons) {
+		unsupported("closure contract: %s has only %d function literals", c.FuncName, len(anons))
+	}
+	anon := anons[c.Closure-1]
+	st := e.NewState()
+	bindings := make([]*smt.Term, len(anon.FreeVars))
+	cell := map[string]int{}
+	for i, fv := range anon.FreeVars {
+		a := e.freshVal(st, "fv."+fv.Name(), fv.Type())
+		st.Assume(smt.Neq(a, NilAddr))
+		e.assumeNotFresh(st, a, fv.Type(), e.alloc0)
+		for j := 0; j < i; j++ {
+			if e.W.SortOf(anon.FreeVars[j].Type()) == e.W.SortOf(fv.Type()) {
+				st.Assume(smt.Neq(a, bindings[j])) // distinct variables
+			}
+		}
+		bindings[i] = a
+		cell[fv.Name()] = i
+		// the captured variables are locals of the enclosing function: no callee can write them, so
+		// they survive the havoc of a callee with unknown effects
+		et := fv.Type().Underlying().(*types.Pointer).Elem()
+		if _, isStruct := et.Underlying().(*types.Struct); !isStruct {
+			key := cellKey(et)
+			e.heapSort[key] = smt.Array(AddrS, e.W.SortOf(et))
+			e.keepOnHavoc = append(e.keepOnHavoc, frameLoc{key, a})
+		}
+	}
+	argsFor := func(s *State) []*smt.Term {
+		var as []*smt.Term
+		for _, v := range c.ClosureVars {
+			i, ok := cell[v.Name]
+			if !ok {
+				unsupported("closure contract %s: %q is not a captured variable of the literal (captured: %v)", c.Display(), v.Name, cell)
+			}
+			fv := anon.FreeVars[i]
+			as = append(as, e.load(s, bindings[i], fv.Type().Underlying().(*types.Pointer).Elem()))
+		}
+		return as
+	}
+	if c.NoSafety {
+		e.noSafety++
+		defer func() { e.noSafety-- }()
+	}
+	for k := range c.Requires {
+		f := pkg.Func(fmt.Sprintf("verif_Q_%d_r%d", c.ID, k))
+		if f == nil {
+			unsupported("closure contract: spec function missing")
+		}
+		e.spec++
+		tmp := st.Clone()
+		v, _ := e.inlineCall(tmp, f, argsFor(st), nil, nil)
+		e.spec--
+		st.Assume(v)
+	}
+	e.recoverNondet = true
+	_, out := e.runFunc(anon, nil, bindings, st, nil)
+	e.recoverNondet = false
+	if out == nil || out.Dead() {
+		unsupported("closure %s has no normal exit", c.Display())
+	}
+	for k, cl := range c.Ensures {
+		f := pkg.Func(fmt.Sprintf("verif_Q_%d_e%d", c.ID, k))
+		e.spec++
+		tmp := out.Clone()
+		v, _ := e.inlineCall(tmp, f, argsFor(out), nil, nil)
+		e.spec--
+		n0 := len(e.Obls)
+		e.check(out, "post", v, token.NoPos, clauseLabel(c.Ensures, k))
+		for i := n0; i < len(e.Obls); i++ {
+			e.Obls[i].Text = cl.Expr
+			e.Obls[i].Pos = fmt.Sprintf("%s:%d", strings.TrimPrefix(cl.File, "/repo/"), cl.Line)
+		}
+	}
+	e.Obls = append(e.Obls, &Obligation{Name: c.Display() + "/vacuity:end", Kind: "vacuity", Func: c.Display(),
+		Hyp: e.hyp(out), Goal: smt.False, Vacuity: true, Props: c.Props, Text: "the literal's exit is reachable"})
 }
